@@ -4,6 +4,7 @@ import PgModel.C05Codec
 import PgModel.C05Store
 import PgModel.C05Typed
 import PgModel.C05Handles
+import PgModel.C05Dna
 import PgGen.C05Sig
 open Pg Pg.C05
 
@@ -228,6 +229,42 @@ def runUser (cfg : HCfg) : HSt → List (Option Nat) → List UOp → List J
       let (s1, o) := hStep cfg s (mk h)
       houtToJ o :: runUser cfg s1 tbl rest
 
+/-! DNA wire: a value is null | int | "str" | {"q":[n,d]}; a nest a value | {"l":[…]} | {"t":[…]} -/
+
+def gvalOfJ : J → Option Geno.Val
+  | .null => some .none
+  | .int i => some (.int i)
+  | .str s => some (.str s)
+  | .obj [("q", .arr [.int n, .int d])] => if d > 0 then some (.flt n d.toNat) else none
+  | _ => none
+
+partial def nestOfJ : J → Option Geno.Nest
+  | .obj [("l", .arr xs)] => (xs.mapM nestOfJ).map .list
+  | .obj [("t", .arr xs)] => (xs.mapM nestOfJ).map .tuple
+  | j => (gvalOfJ j).map .v
+
+def gvalToJ : Geno.Val → J
+  | .none => .null
+  | .int i => .int i
+  | .str s => .str s
+  | .flt n d => .obj [("q", .arr [.int n, .int d])]
+
+partial def nestToJ5 : Geno.Nest → J
+  | .v x => gvalToJ x
+  | .list xs => .obj [("l", .arr (xs.map nestToJ5))]
+  | .tuple xs => .obj [("t", .arr (xs.map nestToJ5))]
+
+/-- The float text layer of the wire: a ratio `n/d` is the token "n/d". -/
+def wireFloat : FloatText :=
+  { ftok := fun n d => reprInt n ++ '/' :: natDigits d,
+    fparse := fun t =>
+      match splitSlash t with
+      | [a, b] =>
+        match parseInt a, parseInt b with
+        | some n, some d => if d > 0 then some (n, d.toNat) else none
+        | _, _ => none
+      | _ => none }
+
 def handle (j : J) : J :=
   match j.getStr? "op" with
   | some "codec" =>
@@ -235,17 +272,32 @@ def handle (j : J) : J :=
     | some env, some t, some ap =>
       let jv := toJson env t
       let js := encodeIntKeys jv
-      .obj [("json", jvToJ jv),
+      let base : List (String × J) :=
+           [("json", jvToJ jv),
             ("rt", resToJ (fromJson env ap jv)),
             ("json_str", jsToJ js),
             ("rt_str", resToJ (fromJsonStr (Text := JS) some env ap (toJsonStr id env t))),
             ("encodable", .bool (Encodable false t)),
             ("encodable_str", .bool (Encodable true t)),
             ("conforms", .bool (Conforms env t))]
+      match j.getBool? "hide_frozen", j.getBool? "hide_default_values" with
+      | some hf, some hd =>
+        let jo := toJsonO ⟨hf, hd⟩ env t
+        J.obj (base ++ [("opts", J.obj [("json", jvToJ jo), ("rt", resToJ (fromJson env ap jo))])])
+      | _, _ => J.obj base
     | _, _, _ => bad "codec"
+  | some "codec_opts" =>
+    match (j.get? "env").bind envOfJ, (j.get? "value").bind treeOfJ, j.getBool? "ap",
+          j.getBool? "hide_frozen", j.getBool? "hide_default_values" with
+    | some env, some t, some ap, some hf, some hd =>
+      let jv := toJsonO ⟨hf, hd⟩ env t
+      .obj [("json", jvToJ jv), ("rt", resToJ (fromJson env ap jv))]
+    | _, _, _, _, _ => bad "codec_opts"
   | some "load" =>
     match (j.get? "env").bind envOfJ, (j.get? "json").bind jvOfJ, j.getBool? "ap" with
-    | some env, some jv, some ap => .obj [("rt", resToJ (fromJson env ap jv))]
+    | some env, some jv, some ap =>
+      if (j.getBool? "auto_dict").getD false then .obj [("rt", resToJ (fromJsonAuto env ap jv))]
+      else .obj [("rt", resToJ (fromJson env ap jv))]
     | _, _, _ => bad "load"
   | some "load_str" =>
     match (j.get? "env").bind envOfJ, (j.get? "json").bind jsOfJ, j.getBool? "ap" with
@@ -259,6 +311,28 @@ def handle (j : J) : J :=
       let (_, outs) := run c [] ops
       .obj [("outs", .arr (outs.map outToJ))]
     | _, _ => bad "store"
+  | some "dna" =>
+    match (j.get? "nest").bind nestOfJ, (j.getArr? "cloneable").bind (·.mapM (·.asStr?)) with
+    | some nest, some cl =>
+      let md : Option (List (Key × Tree)) := match j.get? "meta" with
+        | none | some .null => some []
+        | some t => match treeOfJ t with
+          | some (.dict kvs) => some kvs
+          | _ => none
+      match md, Geno.parse nest with
+      | none, _ => bad "dna meta"
+      | some _, none => .obj [("parse", .str "ValueError")]
+      | some md, some d =>
+        let env : ClassEnv := ⟨[]⟩
+        let m : MDNA := ⟨d, md, cl.map ofS, false⟩
+        let jv := dnaToJson wireFloat env m
+        .obj [("json", jvToJ jv),
+              ("rt", match dnaFromJson wireFloat env jv with
+                | .ok r => .obj [("ok", .obj [("nest", nestToJ5 (compact r.dna)),
+                                               ("meta", treeToJ (.dict r.md)),
+                                               ("cloneable", .arr (r.cloneable.map fun c => .str (toS c)))])]
+                | .error e => .obj [("err", .str (errName e))])]
+    | _, _ => bad "dna"
   | some "hstore" =>
     match j.getStr? "cfg", (j.getArr? "ops").bind (·.mapM uopOfJ) with
     | some cfg, some ops =>
